@@ -151,6 +151,14 @@ def run_trace(ctx, server, rng, n, hostile):
                 path = [rng.choice(users + ["nobody"]), rng.choice(clients + ["noclient"]), "nogrant"][:depth]
             else:
                 path = rng.choice(all_paths)[:depth]
+            alias = False
+            if all_paths and rng.random() < 0.12:
+                # an identifier that spells the stored key of somebody else's inner node ("user;;client")
+                q = rng.choice(all_paths)
+                j = rng.choice([2, 3])
+                path = [";;".join(q[:j])] + (q[j:] if rng.random() < 0.5 else [])
+                alias = odd = True
+                ctx.count("delete:alias-of-inner-key")
             try:
                 if depth == 3 and not odd and rng.random() < 0.5:
                     sm.remove_branch(sm.encrypted_branch_id(*path))
